@@ -5,6 +5,7 @@ package store
 import (
 	"bytes"
 	"context"
+	"time"
 
 	"github.com/codenotary/immudb/pkg/helpers/semaphore"
 	"github.com/codenotary/immudb/embedded/tbtree"
@@ -27,7 +28,11 @@ func VerifH_IndexSinceBulk() {
 	nent := verifrt.Param("entries")
 	first := uint64(3)
 	model := make([][]verifIdxEntry, bulk)
+	txmd := make([]*TxMetadata, bulk) // optional tx metadata of each transaction
 	for t := 0; t < bulk; t++ {
+		if verifrt.Bool("hasTxMD") {
+			txmd[t] = NewTxMetadata().WithTruncatedTxID(verifrt.U64("truncTx"))
+		}
 		for e := 0; e < nent; e++ {
 			model[t] = append(model[t], verifIdxEntry{key: verifrt.Bytes("key", 2), nonIndexable: verifrt.Bool("nonIndexable")})
 		}
@@ -37,7 +42,7 @@ func VerifH_IndexSinceBulk() {
 		if t < 0 || t >= bulk {
 			return ErrTxNotFound
 		}
-		tx.header = &TxHeader{ID: txID, NEntries: len(model[t]), Version: 1}
+		tx.header = &TxHeader{ID: txID, NEntries: len(model[t]), Version: 1, Metadata: txmd[t]}
 		for i, me := range model[t] {
 			e := tx.entries[i]
 			e.setKey(me.key) // in place, into the entry's own key buffer (as txDataReader.readEntry does)
@@ -53,13 +58,14 @@ func VerifH_IndexSinceBulk() {
 	})
 	verifrt.Stub("(*pkg/helpers/semaphore.Semaphore).Acquire", func(m *semaphore.Semaphore, n uint64) bool { return true })
 	verifrt.Stub("(*embedded/watchers.WatchersHub).WaitFor", func(w *watchers.WatchersHub, ctx context.Context, t uint64) error { return nil })
-	var gotKeys [][]byte
+	var gotKeys, gotVals [][]byte
 	var gotTs []uint64
 	inserted, tsOnly := false, uint64(0)
 	verifrt.Stub("(*embedded/tbtree.TBtree).BulkInsert", func(t *tbtree.TBtree, kvts []*tbtree.KVT) error {
 		inserted = true
 		for _, kv := range kvts {
 			gotKeys = append(gotKeys, append([]byte(nil), kv.K...)) // content as the tree receives it
+			gotVals = append(gotVals, append([]byte(nil), kv.V...))
 			gotTs = append(gotTs, kv.T)
 		}
 		return nil
@@ -74,7 +80,7 @@ func VerifH_IndexSinceBulk() {
 		kvs[i] = &tbtree.KVT{}
 	}
 	idx := &indexer{
-		store: &ImmuStore{}, spec: &IndexSpec{}, tx: NewTx(nent, 4), maxBulkSize: bulk, _kvs: kvs,
+		store: &ImmuStore{}, spec: &IndexSpec{}, tx: NewTx(nent, 4), maxBulkSize: bulk, _kvs: kvs, bulkPreparationTimeout: time.Hour,
 		metricsLastIndexedTrx: prometheus.NewGauge(prometheus.GaugeOpts{Name: "verif"}),
 	}
 	err := idx.indexSince(first)
@@ -83,11 +89,15 @@ func VerifH_IndexSinceBulk() {
 
 	var wantKeys [][]byte
 	var wantTs []uint64
+	var wantMD [][]byte
+	var wantOff []int64
 	for t := 0; t < bulk; t++ {
-		for _, me := range model[t] {
+		for i, me := range model[t] {
 			if !me.nonIndexable {
 				wantKeys = append(wantKeys, me.key)
 				wantTs = append(wantTs, first+uint64(t))
+				wantMD = append(wantMD, verifMDBytes(txmd[t]))
+				wantOff = append(wantOff, int64(100*int(first+uint64(t))+i))
 			}
 		}
 	}
@@ -99,5 +109,10 @@ func VerifH_IndexSinceBulk() {
 	for i := 0; i < len(wantKeys) && i < len(gotKeys); i++ {
 		verifrt.Assert(gotTs[i] == wantTs[i], "index entry carries the id of its transaction")
 		verifrt.Assert(bytes.Equal(gotKeys[i], wantKeys[i]), "index entry carries the key of its entry")
+		// the indexed value reference decodes to the entry's value location and its tx metadata
+		ref, err := idx.store.valueRefFrom(gotTs[i], 1, gotVals[i])
+		verifrt.Assert(err == nil, "indexed value reference decodes")
+		verifrt.Assert(ref.VOff() == wantOff[i] && ref.Len() == 1, "indexed value reference points to the entry's value")
+		verifrt.Assert(bytes.Equal(verifMDBytes(ref.TxMetadata()), wantMD[i]), "indexed value reference carries the metadata of its own transaction")
 	}
 }
